@@ -9,10 +9,10 @@ import json, math, random, struct
 # ------------------------------------------------------------------ pools for the opaque atoms
 STR_POOL = ["", "a", "é", "日本語", "\U0001F600", "\u0000", "\u001f", "\"", "\\", "/", "\b\f\n\r\t", "  ", "\u007f", "\u0080", "﻿", "�",
             "퟿", "", "￿", "\U00010000", "\U0010ffff", "à", "1e3", "-0", "constructor", "toString", "__proto__", "length", "null", "true",
-            "\\u0041", "\\n", "'", "</script>", "x" * 300, "{\"a\":1}", " lead", "trail ", " ", "​", "\u0085", "tab\tin"]
+            "\\u0041", "\\n", "'", "</script>", "x" * 300, "{\"a\":1}", " lead", "trail ", " ", "​", "\u0085", "tab\tin", "a  b", "   three", "x    y  z", "\t\t", "  \n  ", "l1\n  l2", ": ", ", ", "[  ]", "{  }"]
 LITERAL_KEYS = {"a", "b", "0", "1", "2", "7", "10", "01", "-0", "length", "__proto__", ""}
 KEY_POOL = ["é", "日本", "\U0001F600", "\"", "\\", "/", "\n", "\u0000", " ", "constructor", "toString", "valueOf", "hasOwnProperty",
-            "1.0", "1e3", "+1", " 1", "4294967295", "4294967294", "9007199254740993", "-1", "NaN", "Infinity", "k" * 200, " ", "﻿", "\U0010ffff"]
+            "1.0", "1e3", "+1", " 1", "4294967295", "4294967294", "9007199254740993", "-1", "NaN", "Infinity", "k" * 200, " ", "﻿", "\U0010ffff", "first  name", "  ", "a\tb", "x:  y"]
 NUM_POOL = [0.0, -0.0, 1.0, -1.0, 2.0, 0.5, 0.1, 1.5, 1e21, 1e-7, 5e-324, 1.7976931348623157e308, 2.0 ** 31, 2.0 ** 31 - 1, -(2.0 ** 31), 2.0 ** 32, 2.0 ** 32 - 1,
             2.0 ** 53, 2.0 ** 53 - 1, -(2.0 ** 53), 2.0 ** 63, -(2.0 ** 63), 2.0 ** 64, 123456789012345680000.0, 1e-6, 0.000001234, 1e300, -1e-300, 3.141592653589793,
             2.2250738585072014e-308, 2.225073858507201e-308, 1e15, 1e16, 123456789.12345679, 4.35, 0.30000000000000004, 9007199254740993.0 + 1]
@@ -165,7 +165,7 @@ def enc_doc(v):
 
 # ------------------------------------------------------------------ expected observations
 def is_index(k):
-    return k.isdigit() and (k == "0" or not k.startswith("0")) and int(k) < 2 ** 32 - 1
+    return k.isascii() and k.isdigit() and (k == "0" or not k.startswith("0")) and int(k) < 2 ** 32 - 1
 
 
 def norm(v):
